@@ -66,6 +66,12 @@ def gen_spec(rng, fmt):
         spec['ny'] = rng.randrange(2, 4)
         spec['nz'] = rng.randrange(1, 3)
         spec['sdate'] = rng.choice([2002154, 2004059, 2011120])
+    if rng.random() < 0.06:
+        # a tall file: many layers on a tiny grid
+        spec['nz'] = rng.choice([64, 65, 96, 130])
+        spec['nx'] = rng.randrange(2, 4)
+        spec['ny'] = 2
+        spec['nt'] = rng.randrange(2, 4)
     if fmt == 'uamiv':
         spec['species'] = rng.sample(['O3', 'NO2', 'CO', 'PAR', 'ISOP', 'A1B2C3D4E5'],
                                      rng.randrange(1, 5))
@@ -152,6 +158,10 @@ class State(object):
         self.todo = 'mk'
         self.n = 0
         self.replaced = False
+        self.it = None
+        self.it_keys = None
+        self.it_pos = 0
+        self.it_which = None
         self.stats = {'evaluations': 0, 'nontrivial': False, 'accesses': 0,
                       'record_reader_rejects': {}, 'files': 0, 'accepted_files': 0,
                       'raw_record_reads': 0, 'after_close': 0, 'by_format': {},
@@ -181,6 +191,11 @@ def gen_op(rng, st):
     k = rng.randrange(100)
     sel = rng.choice([['all'], ['all'], ['t', rng.randrange(spec['nt'])],
                       ['tk', rng.randrange(spec['nt']), rng.randrange(max(1, spec['nz']))]])
+    if spec['fmt'] != 'temperature' and rng.random() < 0.12:
+        # the record reader's own iterators, consumed piecewise between other accesses
+        if st.it is None or rng.random() < 0.25:
+            return {'op': 'iter_start', 'which': rng.choice(['items', 'values'])}
+        return {'op': 'iter_next', 'n': rng.randrange(1, 4)}
     if k >= 92 and not st.replaced:
         st.replaced = True
         return {'op': 'replace', 'spec': gen_spec(rng, spec['fmt'])}
@@ -494,6 +509,74 @@ def _apply(st, op):
                 if a != b:
                     viol('readers-disagree', 'dimension %s: memmap %d, record %d' % (dk, a, b),
                          what='dimension', family='-')
+    elif o == 'iter_start':
+        if st.r is None or st.r_closed:
+            return {'note': 'noop'}
+        try:
+            st.it_keys = list(fresh('r').keys())
+            st.it = iter(getattr(st.r, op['which'])())
+            st.it_pos = 0
+            st.it_which = op['which']
+        except BaseException as e:
+            st.it = None
+            return {'note': 'raised ' + type(e).__name__}
+    elif o == 'iter_next':
+        if st.it is None or st.r is None:
+            return {'note': 'noop'}
+        m = fresh('m')
+        tl = list(fresh('r').timerange())
+        for _ in range(op['n']):
+            if st.it_pos >= len(st.it_keys):
+                st.it = None
+                break
+            key = st.it_keys[st.it_pos]
+            try:
+                item, _cpu = _guard(lambda: next(st.it))
+            except Timeout:
+                viol('reader-does-not-terminate', 'iterator %s' % st.it_which, family='r')
+            except StopIteration:
+                st.it = None
+                break
+            except BaseException as e:
+                st.it = None
+                if st.r_closed:
+                    return {'note': 'raised after close'}
+                viol('record-reader-raised-after-history',
+                     'iterator %s() raised %s: %s at item %d after interleaved accesses' % (
+                         st.it_which, type(e).__name__, e, st.it_pos), error=type(e).__name__)
+            st.it_pos += 1
+            vals = item[len(key):] if st.it_which == 'items' else item
+            if st.it_which == 'items' and tuple(item[:len(key)]) != tuple(key):
+                viol('readers-disagree', 'items() yields key %s where %s is due' % (
+                    item[:len(key)], key), what='iterator-key', family='r')
+            ti = [i for i, dt in enumerate(tl) if tuple(dt) == tuple(key[:2])]
+            if not ti:
+                continue
+            ti = ti[0]
+            exp = []
+            if fmt == 'uamiv':
+                names = [x.strip() for x in st.r.spcnames]
+                exp = [np.array(m.variables[names[key[2]]][ti, key[3] - 1])]
+                got = [np.array(vals[0] if st.it_which == 'items' else vals)[11:]]
+            elif fmt == 'height_pressure':
+                exp = [np.array(m.variables['HGHT'][ti, key[2] - 1]),
+                       np.array(m.variables['PRES'][ti, key[2] - 1])]
+                got = [np.array(v)[2:] for v in vals]
+            elif fmt == 'wind':
+                exp = [np.array(m.variables['U'][ti, key[2] - 1]),
+                       np.array(m.variables['V'][ti, key[2] - 1])]
+                got = [np.array(v) for v in vals]
+            else:
+                exp = [np.array(m.variables[data_keys(m)[0]][ti, key[2] - 1])]
+                got = [np.array(vals[0] if st.it_which == 'items' else vals)[2:]]
+            for g_, e_ in zip(got, exp):
+                if np.asarray(g_, 'f4').ravel().tobytes() != np.asarray(e_, 'f4').ravel().tobytes():
+                    viol('readers-disagree',
+                         '%s() item %d (key %s): record reader yields %s..., the memmap reader '
+                         'holds %s... there' % (st.it_which, st.it_pos - 1, key,
+                                                np.asarray(g_).ravel()[:3].tolist(),
+                                                np.asarray(e_).ravel()[:3].tolist()),
+                         what='iterator', family='r')
     elif o == 'collect':
         seams.GC.collect(2)
         w.fault('gc_between')
@@ -543,6 +626,7 @@ def _apply(st, op):
         w.fault('file_replaced_at_same_path')
         st.spec = sp2
         st.r_closed = False
+        st.it = None
         try:
             st.m = open_reader('m', fmt, path, sp2)
             st.r, _ = _guard(lambda: open_reader('r', fmt, path, sp2))
